@@ -4,5 +4,6 @@ mkdir -p work
 for c in "$@"; do
   s=$(date +%s); ./check.sh $c thorough > work/t-$c.log 2>&1; rc=$?; e=$(date +%s)
   echo "$c rc=$rc $((e-s))s $(grep -E "^C[0-9]+ thorough" work/t-$c.log | cut -c1-100)"
-  [ $rc != 0 ] && tail -5 work/t-$c.log | cut -c1-500
+  if [ $rc != 0 ]; then tail -5 work/t-$c.log | cut -c1-500; bad=1; fi
 done
+exit ${bad:-0}
